@@ -260,6 +260,10 @@ func (f *defaultFactory) populateComponent(name string, meta *component_definiti
 			if dependencies := node.Injects; len(dependencies) != 0 {
 				var injects []*component_definition.Meta
 				for _, dependency := range node.Injects {
+					if dependency == nil {
+						//a candidate that does not exist (by-name point naming no component) is nothing to create
+						continue
+					}
 					f.logger().Tracef("found dependency '%s' for '%s', start to get or create", dependency.Name(), name)
 					component, err := f.doGetComponent(dependency.Name())
 					if err != nil {
